@@ -4,11 +4,16 @@ from vlib import *
 
 
 class Start:
+    """a user-defined start (SequenceStart is open for subclassing): its value may not be known yet (raises while `armed`), and may change"""
+
     def __init__(self, v):
         self._v = v
+        self.armed = False
 
     @property
     def value(self):
+        if self.armed:
+            raise LookupError("start value not known yet")
         return self._v
 
 
@@ -16,7 +21,7 @@ def val(o):
     """the value of an update op: a bare int (duck-typed start) or a real SequenceStart subclass built from its wire values"""
     if isinstance(o, int):
         return o
-    if o[0] in ('simple', 'acct'):
+    if o[0] in ('simple', 'acct', 'mut'):
         return o[1]
     if o[0] == 'init':
         return o[1] * 7 + o[2] - 13
@@ -41,30 +46,64 @@ def show(o):
     return 'next' if o is None else o if isinstance(o, int) else list(o)
 
 
-def run_impl(mod, v0, ops, ss=None):
+def run_impl(mod, v0, ops, ss=None, aux=None):
+    """-> numbers returned by the sequencer itself; `aux` collects what the side events saw:
+    ('fail',)   a request made while the start in force cannot tell its value yet: it raises, and is not a returned number
+    ('fork', k) the sequencer is copied (copy.copy) and the COPY serves k requests: they continue the history, the original is unaffected
+    ('mut', v)  the start object in force changes its value to v (a user-defined start may): the value in force is v from then on"""
+    import copy
+
     def go():
-        s = mod.PacketSequencer(mk(ss, v0))
+        cur = mk(ss, v0)
+        s = mod.PacketSequencer(cur)
         out = []
         for o in ops:
             if o is None:
                 out.append(s.next_sequence())
+            elif isinstance(o, tuple) and o[0] == 'fail':
+                if isinstance(cur, Start):
+                    cur.armed = True
+                    try:
+                        s.next_sequence()
+                        raise RuntimeError("next_sequence returned although the start could not tell its value")
+                    except LookupError:
+                        pass
+                    finally:
+                        cur.armed = False
+            elif isinstance(o, tuple) and o[0] == 'fork':
+                t = copy.copy(s)
+                if aux is not None:
+                    aux.append([t.next_sequence() for _ in range(o[1])])
+            elif isinstance(o, tuple) and o[0] == 'mut' and isinstance(cur, Start):
+                cur._v = o[1]
             else:
-                r = s.set_sequence_start(mk(ss, o))
+                cur = mk(ss, o if not (isinstance(o, tuple) and o[0] == 'mut') else o[1])
+                r = s.set_sequence_start(cur)
                 if r is not None:
                     raise RuntimeError("set_sequence_start returned a value")
         return out
     return pyexc(go)
 
 
-def spec(v0, ops):
+def spec(v0, ops, aux=None):
     cur, n, out = val(v0), 0, []
     for o in ops:
         if o is None:
             out.append(cur + n % 10)
             n += 1
+        elif isinstance(o, tuple) and o[0] == 'fail':
+            pass
+        elif isinstance(o, tuple) and o[0] == 'fork':
+            if aux is not None:
+                aux.append([cur + (n + j) % 10 for j in range(o[1])])
         else:
             cur = val(o)
     return out
+
+
+def proj(ops):
+    """the history as the model sees it: failed requests and forks are not events of the sequencer itself, a changed value is an update"""
+    return [o for o in ops if not (isinstance(o, tuple) and o[0] in ('fail', 'fork'))]
 
 
 def cop(o):
@@ -111,10 +150,22 @@ def run(tier):
         p = rng.choice([0.05, 0.3, 0.7])
         hist.append((rng.choice([0, 1, 1756, rng.randrange(-5, 70000)]),
                      [rng.choice([0, 9, 10, 1756, rng.randrange(0, 70000), -3]) if rng.random() < p else None for _ in range(L)]))
+    # events outside the two methods: a request that fails, a copied sequencer, a start object that changes its value - at every residue
+    for k in range(0, 13):
+        hist.append((5, [None] * k + [('fail',)] + [None] * 12))
+        hist.append((5, [None] * k + [('fork', 3)] + [None] * 12 + [('fork', 2), None]))
+        hist.append((5, [None] * k + [('mut', 100)] + [None] * 12 + [('mut', 7), ('mut', 8), None]))
+    for _ in range(100 if tier == 'quick' else 1000):
+        ev = lambda: rng.choice([('fail',), ('fork', rng.randrange(1, 12)), ('mut', rng.randrange(0, 2000)), rng.randrange(0, 2000)])
+        hist.append((rng.randrange(0, 1757), [ev() if rng.random() < 0.25 else None for _ in range(rng.randrange(1, 50))]))
     cases = []
     for v0, ops in hist:
-        r = run_impl(mod, v0, ops, ss)
+        ax, ex = [], []
+        r = run_impl(mod, v0, ops, ss, ax)
         cases.append(((v0, ops), r))
+        if r == ('ok', spec(v0, ops, ex)) and ax != ex and not C.violations:
+            C.violation(f"history start={show(v0)} ops={[show(o) for o in ops]}: the copies of the sequencer served {ax}, expected {ex}",
+                        dict(unit='packet_sequencer', input=dict(start=show(v0), ops=[show(o) for o in ops])))
         if r != ('ok', spec(v0, ops)) and not C.violations:
             got = r[1] if r[0] == 'ok' else r
             exp = spec(v0, ops)
@@ -127,7 +178,7 @@ def run(tier):
              sample=dict(start=show(hist[len(hist) // 2][0]), ops=[show(o) for o in hist[len(hist) // 2][1]][:30]))
     C.cov['bounded_exhaustive'] = f"all histories of length <= {depth} over {{next, set 3, set 1000}}"
     sub = cases if len(cases) <= 6000 else cases[::len(cases) // 6000 + 1] + cases[-400:]
-    term = lambda c: f"(({cz(val(c[0][0]))}, {clist(c[0][1], cop)}), {cres(c[1], clist)})"
+    term = lambda c: f"(({cz(val(c[0][0]))}, {clist(proj(c[0][1]), cop)}), {cres(c[1], clist)})"
     specs = [dict(label='M.run', ty='(Z * list EO.Model.Sequencer.sop) * res (list Z)', cases=sub, term=term, nontrivial=nt,
                   chk="fun c => res_eqb list_eqb (Ok (EO.Model.Sequencer.run (EO.Model.Sequencer.seqr_init (fst (fst c))) (snd (fst c)))) (snd c)")]
     imports = "Require EO.Model.Sequencer.\nImport EO.Model.Sequencer.\n"
@@ -159,7 +210,10 @@ def replay(path):
     mod, ss = load_leaf(s.src, 'eolib.packet.packet_sequencer', 'eolib.packet.sequence_start')
     un = lambda o: None if o == 'next' else o if isinstance(o, int) else tuple(o)
     v0, ops = un(inp['start']), [un(o) for o in inp['ops']]
-    got = run_impl(mod, v0, ops, ss)
-    w = None if got == ('ok', spec(v0, ops)) else f"history start={inp['start']} ops={inp['ops']} returned {got}, expected {spec(v0, ops)}"
+    ax, ex = [], []
+    got = run_impl(mod, v0, ops, ss, ax)
+    w = None if got == ('ok', spec(v0, ops, ex)) else f"history start={inp['start']} ops={inp['ops']} returned {got}, expected {spec(v0, ops)}"
+    if w is None and ax != ex:
+        w = f"history start={inp['start']} ops={inp['ops']}: the copies of the sequencer served {ax}, expected {ex}"
     print("replay:", w or "property holds on this input")
     return 1 if w else 0
